@@ -50,6 +50,8 @@ class GotranCCodePrinter(C99CodePrinter):
     def __init__(self, *args, **kwargs):
         super().__init__(*args, **kwargs)
         self._settings["contract"] = False
+        # sympy picks the integer function abs for integer valued arguments such as floor(x)
+        self.known_functions["Abs"] = "fabs"
         # Names the generated code uses itself are renamed like C keywords
         functions = {
             name
@@ -67,7 +69,7 @@ class GotranCCodePrinter(C99CodePrinter):
         return self._print(str(float(flt)))
 
     def _print_Integer(self, expr):
-        # Inside products, quotients and powers an integer literal must take
+        # Inside sums, products, quotients and powers an integer literal must take
         # part in real arithmetic: `1/4` is 0.25 and not the C integer quotient 0
         if getattr(self, "_real_literals", False):
             return f"{expr.p}.0"
@@ -86,6 +88,10 @@ class GotranCCodePrinter(C99CodePrinter):
 
     def _print_Pow(self, expr):
         return self._print_with_real_literals(super()._print_Pow, expr)
+
+    def _print_Add(self, expr):
+        # 2000000000 + 2000000000 overflows as a sum of C ints
+        return self._print_with_real_literals(super()._print_Add, expr)
 
     def _print_Indexed(self, expr):
         # Array subscripts stay integers
